@@ -71,4 +71,8 @@ for d in sorted(glob.glob('/verif/seeded/*')):
             "checks": results, "detected_by": det, "note": note}
     json.dump(meta, open(d + '/meta.json', 'w'), indent=1)
     rows.append(f"| {sid} | {prop} | {breaks}; needs: {needs} | {', '.join(det) if det else '—'} | {'VIOLATION' if det else 'MISSED'}{(' — ' + note) if note else ''} |")
-print("\n".join(rows))
+table = "| seed | property | what it breaks; what it needs to manifest | caught by | result |\n|---|---|---|---|---|\n" + "\n".join(rows)
+dp = '/verif/DESIGN.md'; ds = open(dp).read()
+a = ds.index('<!-- SEEDTABLE-BEGIN -->') + len('<!-- SEEDTABLE-BEGIN -->'); b = ds.index('<!-- SEEDTABLE-END -->')
+open(dp, 'w').write(ds[:a] + "\n" + table + "\n" + ds[b:])
+print(len(rows), "seeds;", sum('MISSED' in r for r in rows), "currently missed")
